@@ -12,8 +12,10 @@ open RV.C01
 #print axioms pinned_has_context_yields_ghost
 #print axioms nested_refines_quadset
 #print axioms nested_simple_refines
+#print axioms binop_nested_flat
 #print axioms binop_nested
 #print axioms gen_sound
 #print axioms gen_quiescent
 #print axioms triples_choices
+#print axioms triples_choices_dispatch
 #print axioms gen_snapshot
